@@ -573,11 +573,13 @@ func genChf(o genOpts, w *bufio.Writer) {
 		fmt.Fprintf(w, "chf reset\n")
 		accepted := 0
 		for k, sp := range []string{"imsi-1/2", "imsi-../../etc/passwd", "imsi-1\x002", "imsi-" + strings.Repeat("7", 247), "imsi-" + strings.Repeat("7", 246),
-			"imsi-/", "imsi-1\\2", "imsi-1.2", "imsi-.."} {
+			"imsi-/", "imsi-1\\2", "imsi-1.2", "imsi-..", "imsi-1\n2", "imsi-1\x7f", "imsi-1\t2"} {
 			fmt.Fprintf(w, "chf create %s\n", fmtReq(sp, "smf", 100+k, 0, 1, 0, nil, nil))
 			ref := sp + "smf-" + strconv.Itoa(accepted)
 			if strings.ContainsAny(sp, "/\x00") {
 				ref = "ref-" + strconv.Itoa(k) // (a reference with a path separator does not reach the handler at all)
+			} else if strings.ContainsFunc(sp, func(r rune) bool { return r < 0x20 || r == 0x7f }) {
+				// refused: the reference could not be handed to the consumer in a header
 			} else if len(sp) <= 251 {
 				accepted++
 			}
